@@ -2,6 +2,7 @@
 explicit-mode subprocesses wrote, with the rebuilt package's own loaders
 (line_profiler.load_stats for .lprof, pstats for .prof), and hand back plain
 data."""
+import marshal
 import os
 import pstats
 
@@ -16,6 +17,11 @@ def main():
         rec = dict(path=path, ok=False, exists=os.path.isfile(path), entries=[], err=None)
         if rec['exists']:
             try:
+                with open(path, 'rb') as f:
+                    raw = f.read()
+                rec['stale'] = raw == payload.get('stale', '\0').encode()
+                if rec['stale']:
+                    raise ValueError('the file still holds what was there before the run')
                 if path.endswith('.lprof'):
                     st = line_profiler.load_stats(path)
                     rec['kind'] = 'lprof'
@@ -23,9 +29,15 @@ def main():
                     for (fn, first, name), rows in sorted(st.timings.items()):
                         rec['entries'].append([os.path.basename(fn), first, name, [[l, h] for l, h, t in rows]])
                 else:
-                    st = pstats.Stats(path)
+                    # the .prof format is a marshalled dict; pstats refuses to construct a Stats object from an
+                    # EMPTY one (nothing was profiled), which is a complete, valid file all the same
+                    data = marshal.loads(raw)
+                    if not isinstance(data, dict):
+                        raise TypeError('not a stats dict')
                     rec['kind'] = 'prof'
-                    for (fn, line, name), (cc, nc, tt, ct, callers) in sorted(st.stats.items()):
+                    if data:
+                        data = pstats.Stats(path).stats
+                    for (fn, line, name), (cc, nc, tt, ct, callers) in sorted(data.items()):
                         rec['entries'].append([os.path.basename(fn), line, name, nc])
                 rec['ok'] = True
             except BaseException as e:  # noqa
